@@ -154,6 +154,7 @@ option "title" "C19 ledger"
 2020-02-10 query "shape-open-clear" "SELECT account, sum(position) AS total FROM OPEN ON 2020-01-05 CLEAR GROUP BY account ORDER BY account"
 2020-02-10 query "shape-expr-open-clear" "SELECT account, sum(position) AS total FROM year = 2020 OPEN ON 2020-01-05 CLEAR GROUP BY account ORDER BY account"
 2020-03-31 query "closed-clear" "SELECT account, sum(position) AS total FROM year = 2020 CLOSE ON 2020-02-01 CLEAR GROUP BY account ORDER BY account"
+2020-01-31 query "two" "SELECT 1 + 1 AS two FROM #"
 2020-01-31 query "twin-a" "SELECT date, account, position FROM flag = '*' ORDER BY date, account"
 2020-02-29 query "twin-b" "SELECT date, account, position FROM flag = '*' ORDER BY date, account"
 '''
@@ -168,6 +169,7 @@ LEDGER_ERRORS = LEDGER + '''
   Assets:Bank
 '''
 
+_TWO = "SELECT 1 + 1 AS two FROM #"
 _TWIN = "SELECT date, account, position FROM flag = '*'%s ORDER BY date, account"
 _AGG = "SELECT account, sum(position) AS total FROM %s GROUP BY account ORDER BY account"
 
@@ -186,6 +188,8 @@ STATEMENTS = [
     ('select', _AGG % "OPEN ON 2020-02-01 CLOSE"),
     ('select', _AGG % "CLOSE CLEAR"),
     ('select', _AGG % "year = 2020 CLOSE"),
+    # the unnamed null table of the connection
+    ('select', _TWO),
     # the very text of the named queries twin-a / twin-b (session histories, Part 4)
     ('select', _TWIN % ""),
 ]
@@ -223,6 +227,8 @@ NAMED = {
     'shape-open-clear': ('default-close', [_AGG % "OPEN ON 2020-01-05 CLOSE ON 2020-02-10 CLEAR"]),
     'shape-expr-open-clear': ('default-close', [_AGG % "year = 2020 OPEN ON 2020-01-05 CLOSE ON 2020-02-10 CLEAR"]),
     'closed-clear': ('explicit', [_AGG % "year = 2020 CLOSE ON 2020-02-01 CLEAR"]),
+    # FROM names a table (the null table), not a FROM clause of the ledger kind: typed as is
+    'two': ('explicit', [_TWO]),
     # two directives with IDENTICAL text and different dates: each is closed on its OWN date
     'twin-a': ('default-close', [_TWIN % " CLOSE ON 2020-01-31"]),
     'twin-b': ('default-close', [_TWIN % " CLOSE ON 2020-02-29"]),
@@ -542,7 +548,7 @@ class ShellProduct:
         scalars = tuple(sorted((k, repr(v)) for k, v in vars(sh).items()
                                if v is None or isinstance(v, (str, int, bool, float))))
         sett = tuple(sorted((k, type(v).__name__, repr(v)) for k, v in vars(sh.settings).items()))
-        return (sett, scalars, tuple(sorted(sh.queries)))
+        return (sett, scalars, tuple(sorted(sh.queries)), tuple(sorted(sh.context.tables)))
 
     def canon(self):
         return (self.real_canon(), self.model.key())
@@ -608,11 +614,13 @@ class ShellProduct:
             new_model = self.model
             sp = self.state_problem(before, after, self.model)
             if sp is None and self.real_canon() != canon_before:
-                sp = f'shell attributes changed: {canon_before[1:]} -> {self.real_canon()[1:]}'
+                names = ('settings', 'scalar attributes of the shell', 'named queries', 'names of the connection\'s tables')
+                sp = '; '.join(f'{n} changed: removed {sorted(set(b) - set(a))!r}, added {sorted(set(a) - set(b))!r}'
+                               for n, b, a in zip(names, canon_before, self.real_canon()) if a != b)
             if sp is not None:
                 raise Desync(_MULTIDOT_FP if ev[0] == 'error' and ev[2] in _MULTIDOT_WHY else
                              f'state-changed:{ev[0]}' + (f':{ev[2]}' if ev[0] == 'error' else ''),
-                             f'{ev[1]!r} must not change the settings, but {sp}' + self._also(problems))
+                             f'{ev[1]!r} must not change the settings nor any other state of the shell, but {sp}' + self._also(problems))
         self.model = new_model
         return problems
 
@@ -724,6 +732,12 @@ class ShellProduct:
             exp = world().printed(text) if kind == 'print' else world().render(text, self.model)
             if isinstance(exp, str) and exp in out:
                 problems.append((f'dispatch:executed:{why}', f'{line!r} printed the result of the statement {text!r}'))
+        return None
+
+    def judge_info(self, ev, out, err, exc, before, after, problems):
+        """An informational command: must not crash, must not change anything (what it prints is free)."""
+        if exc is not None:
+            problems.append((crash_fingerprint(exc), f'{ev[1]!r} raised {type(exc).__name__}: {exc}'))
         return None
 
     def judge_tables(self, ev, out, err, exc, before, after, problems):
@@ -988,7 +1002,21 @@ def sessions(thorough):
         for n in (1, 2, 3):
             for steps in itertools.product(evs, repeat=n):
                 out.append((prefix, steps))
+    # informational commands must not change what later statements print: the statement over the connection's
+    # null table, typed and as a named query, right after each of them in the same session
+    two = next(i for i, (_, t) in enumerate(STATEMENTS) if t == _TWO)
+    followers = [('stmt', _TWO, two), ('run', '.run two', 'two', False)]
+    for info in info_events():
+        for f in followers:
+            out.append(((), (info, f)))
     return out
+
+
+def info_events():
+    return [('tables', '.tables'), ('describe', '.describe postings', 'postings'), ('describe', '.describe', None),
+            ('info', '.help'), ('info', '.help set'), ('info', '.errors'), ('info', '.parse SELECT 1'),
+            ('explain', '.explain ' + STATEMENTS[1][1], 1), ('runlist', '.run'), ('echo_all', '.set', False),
+            ('info', '.reload'), ('stmt', _TWO, next(i for i, (_, t) in enumerate(STATEMENTS) if t == _TWO))]
 
 
 def prime(evs):
